@@ -65,6 +65,9 @@ func runCase(t *testing.T, c *Case, opts runOpts) []string {
 			inner = memcache.Open()
 		}
 		conn := &recConn{inner: inner, rec: rec, fault: opts.fault}
+		if conn.fault == nil && len(c.Faults) > 0 {
+			conn.fault = faultHook(c.Faults, conn.backend)
+		}
 		dsn := registerConn(conn)
 		defer unregisterConn(dsn)
 		org := &origin{script: c.Script, rec: rec, onCall: opts.onCall}
